@@ -18,6 +18,7 @@ BUDGET = {
     "quick": {"workers": 16, "cases": 1200, "secs": 60, "min_cases": 9600},
     "thorough": {"workers": 16, "rounds": 4, "cases": 3200, "secs": 420, "min_cases": 102400},
 }
+BUILD_VERDICTS = ("blackbox_definition_changed",)  # the registry is part of this property (see gen.circuits.Misbehaved)
 ANCHORS = ["utils:lint"]
 
 CORRUPTIONS = ["no_type", "bad_type", "fanin_on_source", "second_driver", "bbout_second_load", "bbout_nonbuf_load", "dotted_name", "pin_deleted", "pin_retyped", "undriven_gate", "unloaded_node", "single_input", "fanin_on_x", "fanin_on_bbout", "undriven_pin", "pin_direction_swapped", "two_dots_known_instance", "two_dots_unknown_instance", "stray_bbout_two_loads", "stray_bbout_gate_load"]
